@@ -118,6 +118,18 @@ _coerce_int_node = _typed_coerce(coerce_int, _ast.IntValue)
 _coerce_float_node = _typed_coerce(coerce_float, _ast.FloatValue, _ast.IntValue)
 
 
+def _parse_int(value: Any) -> int:
+    if isinstance(value, bool):
+        raise ValueError(INVALID_INT % value)
+    return coerce_int(value)
+
+
+def _parse_float(value: Any) -> float:
+    if isinstance(value, bool):
+        raise ValueError("Float cannot represent non numeric value: %s" % value)
+    return coerce_float(value)
+
+
 Int = ScalarType(
     "Int",
     description=(
@@ -125,7 +137,7 @@ Int = ScalarType(
         "values. Int can represent values between -(2^31) and 2^31 - 1."
     ),
     serialize=coerce_int,
-    parse=coerce_int,
+    parse=_parse_int,
     parse_literal=_coerce_int_node,
 )
 
@@ -138,7 +150,7 @@ Float = ScalarType(
         "[IEEE 754](http://en.wikipedia.org/wiki/IEEE_floating_point)."
     ),
     serialize=coerce_float,
-    parse=coerce_float,
+    parse=_parse_float,
     parse_literal=_coerce_float_node,
 )
 
